@@ -200,9 +200,10 @@ def look_through(a, prefix=""):
     a.normalised = 0
     for f_ in a.functions():
         if f_["node"].get("body") is not None and not is_test_item(f_):
-            before = _pm.SINK_COUNT[0]
-            nb = _pm.sink_let_if(f_["node"]["body"])
-            if _pm.SINK_COUNT[0] != before:
+            before = _pm.SINK_COUNT[0] + _pm.UNGUARD_COUNT[0]
+            nb = _pm.unguard_fn(f_["node"]) if not os.environ.get("HPBF_NO_UNGUARD") else f_["node"]["body"]
+            nb = _pm.sink_let_if(nb)
+            if _pm.SINK_COUNT[0] + _pm.UNGUARD_COUNT[0] != before:
                 a.normalised += 1
                 f_["node"]["body"] = nb
     if not os.path.exists(VOCAB):
